@@ -19,7 +19,7 @@ RULE = (
     "screen); distinct = hash of both; non-trivial = the screen holds a control in some column and >=2 rows"
 )
 ASSUMPTIONS = ["the interaction sample type links through exp and the Bliss baseline: its viability is checked against its own documented formula and its mean must be 0 whenever a control is present"]
-REQUIRED = {"theta_screen_pairs": {"quick": 1500, "thorough": 40000}, "purity_checks": {"quick": 6000, "thorough": 150000}, "control_neutrality_rows": {"quick": 3000, "thorough": 80000}, "helper_checks": {"quick": 200, "thorough": 5000}, "large_screens": {"quick": 8, "thorough": 60}}
+REQUIRED = {"partial_holder_helper_calls": {"quick": 200, "thorough": 3000}, "theta_screen_pairs": {"quick": 1500, "thorough": 40000}, "purity_checks": {"quick": 6000, "thorough": 150000}, "control_neutrality_rows": {"quick": 3000, "thorough": 80000}, "helper_checks": {"quick": 200, "thorough": 5000}, "large_screens": {"quick": 8, "thorough": 60}}
 N_PAIRS = {"quick": 4000, "thorough": 64000}
 
 
@@ -248,6 +248,23 @@ def run_shard(rec, tier, seed, shard, nshards):
                     want_v = np.array([math.fsum(va[:, e]) / T for e in range(data.size)])
                     want_m = np.array([math.fsum(ma[:, e]) / T for e in range(data.size)])
                     rec.check(kit.close(vavg, want_v, rel=1e-12) and kit.close(mavg, want_m, rel=1e-12), "C09/helpers/avg-not-the-mean", lambda: "averaged helper %r, exact mean %r (T=%d)" % (np.asarray(vavg)[:3].tolist(), want_v[:3].tolist(), T), w)
+                # a collection that holds fewer samples than it declares (a short run, a partial chain): every helper
+                # either refuses or returns one row per HELD sample and their exact mean - never padded rows
+                part = ThetaHolder(n_thetas=T + int(rng.integers(1, 4)))
+                for t_ in ths:
+                    part.add_theta(t_)
+                for hname in ("predict_viability_all", "predict_mean_all", "predict_variance_all", "predict_viability_avg", "predict_mean_avg"):
+                    rec.count("partial_holder_helper_calls")
+                    try:
+                        out_ = np.asarray(getattr(MM, hname)(data, part))
+                    except Exception:
+                        continue  # a refusal
+                    if hname.endswith("_all"):
+                        src = {"predict_viability_all": va, "predict_mean_all": ma, "predict_variance_all": vra}[hname]
+                        rec.check(out_.shape == src.shape and np.array_equal(out_, src), "C09/helpers/row-not-holder-order", lambda: "%s on a collection holding %d of %d declared samples returned shape %r (not one row per held sample, or other values)" % (hname, T, part.n_thetas, out_.shape), w)
+                    else:
+                        src = vavg if hname == "predict_viability_avg" else mavg
+                        rec.check(out_.shape == np.asarray(src).shape and kit.close(out_, np.asarray(src), rel=1e-12), "C09/helpers/avg-not-the-mean", lambda: "%s on a collection holding %d of %d declared samples is not the mean of the held samples" % (hname, T, part.n_thetas), w)
             if pi == 0 and shard == 0:
                 rec.sample({"kind": kind, "arity": arity, "treatment_ids": tids.tolist()[:6], "mean": mean[:6].tolist(), "viability": via[:6].tolist(), "variance": float(var[0]) if n else None})
         large_screens(rec, tier, rng)
